@@ -112,7 +112,7 @@ fn tok(a: &str) -> Value {
     json!({"s": a, "dash": a.starts_with('-') && a.len() > 1, "eqname": n, "eqval": v})
 }
 
-fn run_scenario(sc: &Value, idx: usize, bin: &Path, scratch: &Path) -> Outcome {
+fn run_scenario(sc: &Value, idx: usize, bin: &Path, scratch: &Path, local: bool) -> Outcome {
     let mut r = fastrand::Rng::with_seed(seed().wrapping_mul(7919).wrapping_add(idx as u64));
     let tmp = tempfile::tempdir_in(scratch).unwrap();
     let d = tmp.path().canonicalize().unwrap();
@@ -125,7 +125,44 @@ fn run_scenario(sc: &Value, idx: usize, bin: &Path, scratch: &Path) -> Outcome {
     for n in ["docker", "pack"] { std::os::unix::fs::symlink(bin.join("standin"), d.join("bin").join(n)).unwrap(); }
     let absolute = r.bool();
     let abs_app = d.join("proj/fixture app");
-    let cfg = gen_cfg(&mut r, if absolute { Some(&abs_app) } else { None });
+    let mut cfg = gen_cfg(&mut r, if absolute { Some(&abs_app) } else { None });
+    // local mode: the manifest directory is a buildpack crate in a Cargo workspace with a second
+    // crate and a composite buildpack; buildpack references mix CurrentCrate / WorkspaceBuildpack /
+    // Other and the (dependency-free) crates are really compiled and packaged
+    let mut toolchain_bin = String::new();
+    if local {
+        let w = |rel: &str, text: &str| { let p = d.join(rel); fs::create_dir_all(p.parent().unwrap()).unwrap(); fs::write(p, text).unwrap(); };
+        w("Cargo.toml", "[workspace]\nresolver = \"2\"\nmembers = [\"proj\", \"bp-b\"]\n");
+        for (dir, pkg, id) in [("proj", "bp-a", "verif/a"), ("bp-b", "bp-b", "verif/b")] {
+            w(&format!("{dir}/Cargo.toml"), &format!("[package]\nname = \"{pkg}\"\nversion = \"0.0.1\"\nedition = \"2021\"\n"));
+            w(&format!("{dir}/src/main.rs"), &format!("fn main() {{ println!(\"VERIF-MARKER<{id}>\"); }}\n"));
+            w(&format!("{dir}/buildpack.toml"), &format!("api = \"0.10\"\n\n[buildpack]\nid = \"{id}\"\nversion = \"0.0.1\"\n\n[[targets]]\nos = \"linux\"\n"));
+        }
+        w("meta/buildpack.toml", "api = \"0.10\"\n\n[buildpack]\nid = \"verif/meta\"\nversion = \"0.0.1\"\n\n[[order]]\n[[order.group]]\nid = \"verif/a\"\nversion = \"0.0.1\"\n");
+        w("meta/package.toml", "[buildpack]\nuri = \".\"\n\n[[dependencies]]\nuri = \"libcnb:verif/b\"\n\n[[dependencies]]\nuri = \"libcnb:verif/a\"\n");
+        w(".ignore", "tmp/\nstate/\nbin/\n");
+        let refs = [json!({"current": true}), json!({"workspace": "verif/meta"}), json!({"workspace": "verif/b"}), json!("heroku/procfile"), json!("docker://x/y:1")];
+        let n = r.usize(1..4);
+        let mut bps: Vec<Value> = (0..n).map(|_| refs[r.usize(..refs.len())].clone()).collect();
+        if !bps.iter().any(|b| !b.is_string()) { bps[0] = refs[idx % 3].clone(); }
+        cfg["buildpacks"] = json!(bps);
+        let cargo = Command::new("rustup").args(["which", "cargo"]).output().ok().filter(|o| o.status.success()).map(|o| String::from_utf8_lossy(&o.stdout).trim().to_string()).unwrap_or_else(|| "/usr/bin/cargo".into());
+        toolchain_bin = Path::new(&cargo).parent().unwrap().to_string_lossy().to_string();
+        // the musl targets libcnb-test builds for are not installed in this sandbox: like docker and
+        // pack, the cross toolchain is a stand-in - a `cargo` on PATH that builds for the host's gnu
+        // target instead (the output directory of the musl target is a link to it) and C compilers
+        // that only have to exist
+        let host = format!("{}-unknown-linux-gnu", std::env::consts::ARCH);
+        let wrapper = format!("#!/bin/sh\nn=$#\nwhile [ $n -gt 0 ]; do a=\"$1\"; shift; n=$((n-1))\n  case \"$a\" in *-unknown-linux-musl) a={host};; esac\n  set -- \"$@\" \"$a\"\ndone\nexec {cargo} \"$@\"\n");
+        w("bin/cargo", &wrapper);
+        for n in ["cargo", "musl-gcc", "x86_64-linux-gnu-gcc", "aarch64-linux-gnu-gcc"] {
+            use std::os::unix::fs::PermissionsExt;
+            if n != "cargo" { w(&format!("bin/{n}"), "#!/bin/sh\nexec cc \"$@\"\n"); }
+            fs::set_permissions(d.join("bin").join(n), fs::Permissions::from_mode(0o755)).unwrap();
+        }
+        fs::create_dir_all(d.join("target")).unwrap();
+        for musl in ["x86_64-unknown-linux-musl", "aarch64-unknown-linux-musl"] { std::os::unix::fs::symlink(&host, d.join("target").join(musl)).unwrap(); }
+    }
     // plan: outcome queues per command kind, in script order
     let mut plan: BTreeMap<&str, Vec<String>> = BTreeMap::new();
     let script = sc["script"].as_array().unwrap();
@@ -146,11 +183,17 @@ fn run_scenario(sc: &Value, idx: usize, bin: &Path, scratch: &Path) -> Outcome {
     }
     fs::write(d.join("state/plan.json"), json!(plan).to_string()).unwrap();
     fs::write(d.join("scenario.json"), json!({"script": script, "cfg": cfg}).to_string()).unwrap();
-    let fixture_before = fsnap::snapshot(&d.join("proj"));
-    let out = Command::new(bin.join("scenario")).arg(d.join("scenario.json")).current_dir(d.join("decoy cwd")).env_clear()
+    let fixture_root = if local { d.join("proj/fixture app") } else { d.join("proj") };
+    let fixture_before = fsnap::snapshot(&fixture_root);
+    let mut command = Command::new(bin.join("scenario"));
+    command.arg(d.join("scenario.json")).current_dir(d.join("decoy cwd")).env_clear()
         .env("PATH", format!("{}:/usr/bin:/bin", d.join("bin").display())).env("STANDIN_STATE", d.join("state"))
-        .env("TMPDIR", d.join("tmp")).env("CARGO_MANIFEST_DIR", d.join("proj")).env("HOME", &d)
-        .output().expect("scenario");
+        .env("TMPDIR", d.join("tmp")).env("CARGO_MANIFEST_DIR", d.join("proj")).env("HOME", &d);
+    if local {
+        command.env("PATH", format!("{}:{toolchain_bin}:/usr/bin:/bin", d.join("bin").display())).env("CARGO", format!("{toolchain_bin}/cargo"))
+            .env("CARGO_NET_OFFLINE", "true").env("CARGO_HOME", d.join("cargo-home")).env("CARGO_TERM_QUIET", "true");
+    }
+    let out = command.output().expect("scenario");
     let code = out.status.code();
     let stderr = String::from_utf8_lossy(&out.stderr).to_string();
     let log: Vec<Value> = fs::read_to_string(d.join("state/log.ndjson")).unwrap_or_default().lines().map(|l| serde_json::from_str(l).unwrap()).collect();
@@ -158,7 +201,14 @@ fn run_scenario(sc: &Value, idx: usize, bin: &Path, scratch: &Path) -> Outcome {
     let mut p17 = vec![];
     if stderr.contains("HARNESS:") { p16.push(format!("HARNESS problem: {}", stderr.lines().find(|l| l.contains("HARNESS")).unwrap_or(""))); }
     let expected_panic = sc["panics"] == true;
+    // a configuration whose buildpacks cannot even be packaged never reaches pack: that is C17's
+    // business ("every build configuration results in one pack build invocation"), not C16's
+    let packaging_failed = local && stderr.contains("Error packaging");
+    if packaging_failed {
+        p17.push(format!("pack build: never invoked because a configured buildpack could not be packaged: references {}: {}", cfg["buildpacks"], stderr.lines().find(|l| l.contains("Error packaging")).unwrap_or("")));
+    }
     match code {
+        _ if packaging_failed => {}
         Some(0) if expected_panic => p16.push("the scenario was expected to panic but the process exited 0".into()),
         Some(0) => {}
         Some(101) if expected_panic => {}
@@ -185,8 +235,45 @@ fn run_scenario(sc: &Value, idx: usize, bin: &Path, scratch: &Path) -> Outcome {
                         let get = |f: &str| vals.iter().filter(|(k, _)| k == f).map(|(_, v)| v.clone()).collect::<Vec<_>>();
                         if pos.len() != 1 { p17.push(format!("pack build: positional arguments {pos:?} (user values leaked out of value positions?)")); }
                         if get("--builder") != vec![cfg["builder"].as_str().unwrap().to_string()] { p17.push(format!("pack build: builder {:?}, configured {}", get("--builder"), cfg["builder"])); }
-                        let want_bps: Vec<String> = cfg["buildpacks"].as_array().unwrap().iter().map(|b| b.as_str().unwrap().to_string()).collect();
+                        let want_bps: Vec<String> = if local { get("--buildpack") } else { cfg["buildpacks"].as_array().unwrap().iter().map(|b| b.as_str().unwrap().to_string()).collect() };
                         if get("--buildpack") != want_bps { p17.push(format!("pack build: buildpacks {:?}, configured {want_bps:?}", get("--buildpack"))); }
+                        if local {
+                            // every reference, in order: Other verbatim; CurrentCrate / WorkspaceBuildpack as a directory that
+                            // holds that buildpack, completely packaged (binary of the right crate, detect link, dependencies)
+                            let got = get("--buildpack");
+                            let refs = cfg["buildpacks"].as_array().unwrap();
+                            let dirs = e["buildpack_dirs"].as_array().cloned().unwrap_or_default();
+                            let complete = |x: &Value, id: &str| -> Option<String> {
+                                if x["is_dir"] != true { return Some("is not a directory".into()); }
+                                if x["id"] != id { return Some(format!("holds buildpack {} instead of {id}", x["id"])); }
+                                if id == "verif/meta" { return None; }
+                                if x["build"] != true || x["marker"] != id { return Some(format!("bin/build is not the binary of {id} (marker {})", x["marker"])); }
+                                if x["detect"] != "build" { return Some(format!("bin/detect is {} instead of a link to build", x["detect"])); }
+                                None
+                            };
+                            if got.len() != refs.len() { p17.push(format!("pack build: {} --buildpack arguments for {} configured references", got.len(), refs.len())); }
+                            for (k, (g, want)) in got.iter().zip(refs).enumerate() {
+                                if let Some(s) = want.as_str() {
+                                    if g != s { p17.push(format!("pack build: buildpack #{k} is {g:?}, configured {s:?}")); }
+                                    continue;
+                                }
+                                let id = want["workspace"].as_str().unwrap_or("verif/a");
+                                match dirs.iter().find(|x| x["arg"] == g.as_str()) {
+                                    None => p17.push(format!("pack build: buildpack #{k} ({id}) was passed as {g:?}, which is not a packaged buildpack directory")),
+                                    Some(x) => {
+                                        if let Some(why) = complete(x, id) { p17.push(format!("pack build: buildpack #{k}: the directory passed for {id} {why}")); }
+                                        if id == "verif/meta" {
+                                            let deps = x["deps"].as_array().cloned().unwrap_or_default();
+                                            let ids: Vec<&str> = deps.iter().map(|dd| dd["id"].as_str().unwrap_or("?")).collect();
+                                            if ids != ["verif/b", "verif/a"] { p17.push(format!("pack build: buildpack #{k}: package.toml of verif/meta lists {ids:?}, declared [verif/b, verif/a]")); }
+                                            for dd in &deps {
+                                                if let Some(why) = complete(dd, dd["id"].as_str().unwrap_or("?")) { p17.push(format!("pack build: buildpack #{k}: dependency {} of verif/meta {why}", dd["uri"])); }
+                                            }
+                                        }
+                                    }
+                                }
+                            }
+                        }
                         let want_env: Vec<String> = cfg["build_env"].as_array().unwrap().iter().map(|kv| format!("{}={}", kv[0].as_str().unwrap(), kv[1].as_str().unwrap())).collect();
                         let mut got_env = get("--env"); got_env.sort();
                         let mut we = want_env.clone(); we.sort();
@@ -258,11 +345,14 @@ fn run_scenario(sc: &Value, idx: usize, bin: &Path, scratch: &Path) -> Outcome {
             }
             "rmi" => {
                 if !argv.contains(&"--force".to_string()) { p16.push("docker rmi without --force".into()); }
+                // no pack build was logged (packaging failed first): the run's own names are the generated ones
+                if image.is_none() { if let Some(n) = argv.get(1).filter(|n| n.starts_with("libcnbtest_")) { image = Some(n.clone()); } }
                 cmds.push(json!({"cmd": "rmi", "arg": own(&image, argv.get(1).map_or("", String::as_str))}));
             }
             "volume-rm" => {
                 let names: BTreeSet<String> = argv[2..].iter().filter(|a| !a.starts_with("--")).cloned().collect();
                 if !argv.contains(&"--force".to_string()) { p16.push("docker volume remove without --force".into()); }
+                if vols.is_empty() { if let Some(i) = &image { vols = [format!("{i}.build-cache"), format!("{i}.launch-cache")].into_iter().collect(); } }
                 cmds.push(json!({"cmd": "volume-rm", "arg": if names == vols && !vols.is_empty() { "vols".to_string() } else { format!("{names:?}") }}));
             }
             "sbom" => cmds.push(json!({"cmd": "sbom", "arg": own(&image, argv.get(2).map_or("", String::as_str))})),
@@ -275,13 +365,13 @@ fn run_scenario(sc: &Value, idx: usize, bin: &Path, scratch: &Path) -> Outcome {
     let relevant = |v: &[Value]| -> Vec<Value> { v.iter().filter(|c| matches!(c["cmd"].as_str().unwrap_or(""), "pack-build" | "run-detached" | "rm" | "rmi" | "volume-rm")).cloned().collect() };
     let want: Vec<Value> = relevant(sc["trace"].as_array().unwrap());
     let cmds_rel = relevant(&cmds);
-    if cmds_rel != want {
+    if cmds_rel != want && !packaging_failed {
         let f = |v: &[Value]| v.iter().map(|c| format!("{} {}", c["cmd"].as_str().unwrap_or("?"), c["arg"].as_str().unwrap_or("?"))).collect::<Vec<_>>().join(", ");
-        p16.push(format!("resource commands [{}], the specification predicts [{}]", f(&cmds_rel), f(&want)));
+        p16.push(format!("resource commands [{}], the specification predicts [{}]; stderr of the test process: {}", f(&cmds_rel), f(&want), stderr.lines().filter(|l| !l.trim().is_empty()).rev().take(5).collect::<Vec<_>>().join(" | ")));
     }
     let temps_left = fs::read_dir(d.join("tmp")).map(|rd| rd.count()).unwrap_or(0);
     if temps_left != 0 { p16.push(format!("{temps_left} temporary directories left behind in TMPDIR")); }
-    let fixture_after = fsnap::snapshot(&d.join("proj"));
+    let fixture_after = fsnap::snapshot(&fixture_root);
     if fixture_before != fixture_after { p17.push(format!("the app fixture was modified: {:?}", fsnap::diff(&fixture_before, &fixture_after))); }
     Outcome { problems16: p16, problems17: p17, event: json!({"cmds": cmds, "temps_left": temps_left, "script": script}), argv_events }
 }
@@ -298,7 +388,15 @@ fn main() {
     let raw: Vec<Value> = if single { vec![serde_json::from_str(&fs::read_to_string(&input).unwrap()).unwrap()] } else { read_tlc_tagged(&input, "SC") };
     let limit: usize = std::env::var("VERIF_LIMIT").ok().and_then(|s| s.parse().ok()).unwrap_or(usize::MAX);
     let raw: Vec<Value> = raw.into_iter().take(limit).collect();
-    let results = par_map(&raw, threads(), |i, sc| run_scenario(sc, i, &bin, &scratch));
+    let mut results = par_map(&raw, threads(), |i, sc| run_scenario(sc, i, &bin, &scratch, sc["local"] == true));
+    // a sample of the scenarios again, with locally packaged buildpacks (really compiled)
+    let n_local: usize = std::env::var("VERIF_LOCAL").ok().and_then(|s| s.parse().ok()).unwrap_or(48);
+    let local_scs: Vec<Value> = if single { vec![] } else { raw.iter().step_by((raw.len() / n_local.max(1)).max(1)).take(n_local).cloned().map(|mut v| { v["local"] = json!(true); v }).collect() };
+    let local_results = par_map(&local_scs, threads(), |i, sc| run_scenario(sc, i, &bin, &scratch, true));
+    let n_plain = raw.len();
+    let mut raw = raw;
+    raw.extend(local_scs.iter().cloned());
+    results.extend(local_results);
     let mut f16 = std::io::BufWriter::new(fs::File::create(&trace16).unwrap());
     let mut f17 = std::io::BufWriter::new(fs::File::create(&trace17).unwrap());
     let mut s = Summary::default();
@@ -315,6 +413,7 @@ fn main() {
     }
     s.distinct_nontrivial = shapes.len();
     s.extra.insert("argv_events".into(), json!(n17));
+    s.extra.insert("local_buildpack_scenarios".into(), json!(raw.len() - n_plain));
     s.samples = raw.iter().step_by((raw.len() / 3).max(1)).take(3).cloned().collect();
     s.print();
 }
